@@ -1,6 +1,6 @@
 (* C02 over the reals: the generic model of model/Hdc.v instantiated with R (exact arithmetic), the order /
    addition hypotheses of HdcProofs.v discharged, sums and products in their mathematical form. *)
-From Coq Require Import Reals Lra List Bool ZArith Lia Permutation.
+From Coq Require Import Reals Lra List Bool ZArith Lia Permutation PrimFloat.
 From V.model Require Import Hdc.
 From V.proofs Require Import HdcProofs HdcArrayProofs.
 Import ListNotations.
@@ -266,3 +266,49 @@ Section CellProbability.
         rewrite spacing. apply in_map. apply nth_In. lia.
   Qed.
 End CellProbability.
+
+(* ------------------------------------------------------------------ statements in the form used by props/C02.v *)
+Lemma region_cells_R a lim sel lastv warn : nonnegR a -> Rcbu a lim = CbuOk sel lastv warn ->
+  NoDup sel /\ (forall k, In k sel -> in_range a k) /\ exists n, sel = map snd (firstn n (argsort_desc R Rleb a)).
+Proof.
+  intros Hn Hok. destruct (sel_cells a lim Hn sel lastv warn Hok) as [A B].
+  exact (conj A (conj B (sel_is_prefix a lim Hn sel lastv warn Hok))).
+Qed.
+
+Lemma fm_is_least_dense_enclosed f deltas lim sel lastv warn :
+  Forall (fun d => 0 < d) deltas -> nonnegR (scale_cells R Rmult f deltas) ->
+  Rcbu (scale_cells R Rmult f deltas) lim = CbuOk sel lastv warn ->
+  exists k, In k sel /\ last sel 0%Z = k /\
+            fm_of R Rdiv lastv deltas = nth (Z.to_nat k) f 0 /\
+            forall c, In c sel -> nth (Z.to_nat k) f 0 <= nth (Z.to_nat c) f 0.
+Proof.
+  intros Hd Hn Hok.
+  destruct (last_summed_is_min _ lim Hn sel lastv warn Hok) as [[k [Hk [Hl Ev]]] Hmin].
+  exists k. split; [exact Hk|]. split; [exact Hl|]. split.
+  - apply (fm_is_density f deltas (Z.to_nat k) lastv Hd). symmetry. exact Ev.
+  - intros c Hc. apply (density_order f deltas (Z.to_nat k) (Z.to_nat c) Hd). specialize (Hmin c Hc). rewrite Ev in Hmin. exact Hmin.
+Qed.
+
+Lemma superlevel_set_R a lim sel lastv warn : nonnegR a -> Rcbu a lim = CbuOk sel lastv warn ->
+  (forall k, in_range a k -> (In k sel -> lastv <= cellp a k) /\ (~ In k sel -> lastv <= cellp a k -> cellp a k = lastv)) /\
+  ((forall e, in_range a e -> ~ In e sel -> cellp a e <> lastv) -> forall k, in_range a k -> (In k sel <-> lastv <= cellp a k)).
+Proof.
+  intros Hn Hok.
+  exact (conj (region_is_superlevel_set a lim Hn sel lastv warn Hok) (region_is_superlevel_set_no_ties a lim Hn sel lastv warn Hok)).
+Qed.
+
+Lemma mask_positions sh sel idx : in_shape sh idx ->
+  length (mask_of (prod sh) sel) = prod sh /\
+  (nth (ravel sh idx) (mask_of (prod sh) sel) false = true <-> In (Z.of_nat (ravel sh idx)) sel) /\
+  unravel sh (ravel sh idx) = idx.
+Proof.
+  intros H. split; [apply mask_of_length|]. split; [apply mask_of_nth, ravel_lt, H|apply unravel_ravel, H].
+Qed.
+
+Lemma float_entry_points :
+  f_cbu = cumsum_biggest_until PrimFloat.float 0%float PrimFloat.add PrimFloat.leb PrimFloat.ltb fisnan /\
+  f_hdr_select = hdr_select PrimFloat.float 0%float PrimFloat.add PrimFloat.leb PrimFloat.ltb fisnan /\
+  f_joint = cell_averaged_joint_pdf PrimFloat.float 0%float 1%float 0.5%float PrimFloat.add PrimFloat.sub PrimFloat.mul PrimFloat.div /\
+  f_region = hdc_region PrimFloat.float 0%float 1%float 0.5%float PrimFloat.add PrimFloat.sub PrimFloat.mul PrimFloat.div
+                        PrimFloat.leb PrimFloat.ltb fisnan.
+Proof. repeat split; reflexivity. Qed.
